@@ -576,6 +576,9 @@ func (m *M) check(b, route string, a Args, pre *snapshot, r *world.Result) {
 	}
 
 	// ---------------- C13: changes of 2FA settings -------------------------------------------
+	if (route == "totpvalidate" || route == "smsvalidate") && a.RCode != "" && newU != "" && newU != oldU {
+		m.usedRec[newU+"|"+a.RCode] = true // this recovery code has completed a login: it is used, whatever storage says
+	}
 	if r.Panic == "" && !r.Injected {
 		_, half := pre.sess["halfauth"]
 		for pid, u0 := range pre.users {
@@ -633,7 +636,7 @@ func (m *M) check(b, route string, a Args, pre *snapshot, r *world.Result) {
 			case "totpremove", "smsremove":
 				valid := false
 				if a.RCode != "" {
-					valid = recCodeValid(u0, a.RCode)
+					valid = recCodeValid(u0, a.RCode) && !m.usedRec[pid+"|"+a.RCode]
 				} else if route == "totpremove" {
 					valid = u0.TOTPSecretKey != "" && totp.Validate(a.Code, u0.TOTPSecretKey)
 				} else {
